@@ -47,6 +47,7 @@ type step struct {
 	ReqQ  int    `json:"reqq,omitempty"` // join: >0: the remote speaks the extension protocol and advertises this queue depth
 	Race  bool   `json:"race,omitempty"` // do not wait for quiescence before the next step
 	Chunks []int `json:"chunks,omitempty"` // cmd: blocks handed to the peer; cancel: blocks cancelled
+	Wait   bool  `json:"wait,omitempty"`   // want: ask for a completion channel
 }
 
 type scenario struct {
@@ -58,6 +59,25 @@ type scenario struct {
 	Audits []audit  `json:"audits"`
 	TorLog []torEv  `json:"-"`
 	Note   string   `json:"note,omitempty"`
+	// C10
+	Prop    string    `json:"prop,omitempty"`
+	Waiters []*waiter `json:"waiters,omitempty"`
+	Haves   [][2]int  `json:"haves,omitempty"` // (piece, seq) of every TorHave(true) handled
+}
+
+// a consumer waiting for a piece
+type waiter struct {
+	ID      int `json:"id"`
+	Piece   int `json:"piece"`
+	Seq     int `json:"seq"`     // when the channel was handed out
+	Abandon int `json:"abandon"` // when the last priority on the piece was withdrawn afterwards (0: never)
+	ch      <-chan struct{}
+}
+
+type reqObs struct {
+	Index   int   `json:"index"`
+	Prio    []int `json:"prio"`
+	Waiting bool  `json:"waiting"`
 }
 
 // one audit at a quiescent point, after step Step
@@ -68,6 +88,12 @@ type audit struct {
 	Avail    [][2]int `json:"avail"`    // (piece, count)
 	Adv      [][2]int `json:"adv"`      // (piece, number of connected peers advertising it)
 	Peers    int      `json:"peers"`
+	// C10
+	Seq       int      `json:"seq,omitempty"`
+	Closed    []int    `json:"closed,omitempty"`    // waiters whose channel is closed
+	Complete  []int    `json:"complete,omitempty"`  // verified pieces
+	Requested []reqObs `json:"requested,omitempty"` // Torrent.requested
+	Wanted    [][2]int `json:"wanted,omitempty"`    // (piece, prio) held by the consumers
 }
 
 // one step of the torrent's event handler, with what it did to the counters
@@ -103,6 +129,7 @@ type swarm struct {
 	cancel  context.CancelFunc
 	remotes map[int]*remote
 	pumped  int
+	wanted  [][2]int // (piece, prio) the consumers hold, in order
 }
 
 func (s *swarm) npieces() int { return int((s.sc.Total + int64(s.sc.Psize) - 1) / int64(s.sc.Psize)) }
@@ -210,6 +237,9 @@ func (s *swarm) handle(e peer.TorEvent) {
 	}
 	s.t.VerifHandleEvent(s.ctx, e)
 	s.pumped++
+	if h, ok := e.(peer.TorHave); ok && h.Have {
+		s.sc.Haves = append(s.sc.Haves, [2]int{int(h.Index), s.pumped})
+	}
 	f1, a1 := s.counters()
 	ev.DIF, ev.DAV = diff(f0, f1), diff(a0, a1)
 	if ev.Kind != "other" || len(ev.DIF) > 0 || len(ev.DAV) > 0 {
@@ -310,7 +340,31 @@ func (s *swarm) audit(stepno int) audit {
 			return true
 		})
 	}
-	return audit{Step: stepno, InFlight: sparse(f), Held: sparse(held), Avail: sparse(a), Adv: sparse(adv), Peers: len(peers)}
+	au := audit{Step: stepno, InFlight: sparse(f), Held: sparse(held), Avail: sparse(a), Adv: sparse(adv), Peers: len(peers)}
+	if s.sc.Prop == "C10" {
+		au.Seq = s.pumped
+		for _, w := range s.sc.Waiters {
+			select {
+			case <-w.ch:
+				au.Closed = append(au.Closed, w.ID)
+			default:
+			}
+		}
+		for i := 0; i < s.npieces(); i++ {
+			if s.t.Pieces.Complete(uint32(i)) {
+				au.Complete = append(au.Complete, i)
+			}
+		}
+		for _, r := range s.t.VerifRequested() {
+			o := reqObs{Index: int(r.Index), Waiting: r.Waiting, Prio: []int{}}
+			for _, p := range r.Prio {
+				o.Prio = append(o.Prio, int(p))
+			}
+			au.Requested = append(au.Requested, o)
+		}
+		au.Wanted = append([][2]int(nil), s.wanted...)
+	}
+	return au
 }
 
 func (a audit) ok() bool {
@@ -472,9 +526,43 @@ func (s *swarm) run() {
 				r.send(protocol.Choke{})
 			}
 		case "want":
-			s.handle(peer.TorRequest{Index: uint32(st.Piece), Priority: int8(st.Prio), Request: true})
+			if st.Wait {
+				ch := make(chan (<-chan struct{}), 1)
+				s.handle(peer.TorRequest{Index: uint32(st.Piece), Priority: int8(st.Prio), Request: true, Ch: ch})
+				if done := <-ch; done != nil {
+					sc.Waiters = append(sc.Waiters, &waiter{ID: len(sc.Waiters), Piece: st.Piece, Seq: s.pumped, ch: done})
+				}
+			} else {
+				s.handle(peer.TorRequest{Index: uint32(st.Piece), Priority: int8(st.Prio), Request: true})
+			}
+			if st.Prio > -128 {
+				s.wanted = append(s.wanted, [2]int{st.Piece, st.Prio})
+			}
 		case "unwant":
 			s.handle(peer.TorRequest{Index: uint32(st.Piece), Priority: int8(st.Prio), Request: false})
+			for k, w := range s.wanted {
+				if w[0] == st.Piece && w[1] == st.Prio {
+					s.wanted = append(append([][2]int(nil), s.wanted[:k]...), s.wanted[k+1:]...)
+					break
+				}
+			}
+			left := false
+			for _, w := range s.wanted {
+				if w[0] == st.Piece {
+					left = true
+				}
+			}
+			if !left {
+				for _, w := range sc.Waiters {
+					if w.Piece == st.Piece && w.Abandon == 0 {
+						w.Abandon = s.pumped
+					}
+				}
+			}
+		case "evictall":
+			s.t.Pieces.Expire(0, nil, func(index uint32) {
+				s.handle(peer.TorHave{Index: index, Have: false})
+			})
 		case "tick":
 			s.tick()
 		case "cmd":
@@ -732,7 +820,7 @@ func term(sc *scenario) string {
 
 func main() {
 	fs := flag.NewFlagSet("swarm", flag.ExitOnError)
-	fs.String("prop", "C09", "property")
+	prop := fs.String("prop", "C09", "property")
 	out := fs.String("out", "", "output directory")
 	n := fs.Int("n", 100, "number of scenarios")
 	casef := fs.String("case", "", "case file (replay)")
@@ -741,33 +829,67 @@ func main() {
 	config.SetDefaultProxy("")
 	r := cq.Rand()
 	var scs []*scenario
+	var rqs []*rqCase
 	switch os.Args[1] {
 	case "gen":
 		for i := 0; i < *n; i++ {
-			scs = append(scs, genScenario(r, i))
+			if *prop == "C10" {
+				if i%2 == 0 {
+					rqs = append(rqs, genRq(r, i))
+				} else {
+					scs = append(scs, genWaiters(r, i))
+				}
+			} else {
+				scs = append(scs, genScenario(r, i))
+			}
 		}
 	case "replay":
 		data, _ := os.ReadFile(*casef)
 		var wrap struct {
-			Case scenario `json:"case"`
+			Case json.RawMessage `json:"case"`
 		}
 		json.Unmarshal(data, &wrap)
-		wrap.Case.Audits = nil
-		// a race is a race: give it several chances
-		for i := 0; i < 20; i++ {
-			c := wrap.Case
-			c.ID = i
-			scs = append(scs, &c)
+		var probe struct {
+			Kind string `json:"kind"`
+		}
+		json.Unmarshal(wrap.Case, &probe)
+		if probe.Kind == "rq" {
+			var c rqCase
+			json.Unmarshal(wrap.Case, &c)
+			c.ID = 0
+			rqs = append(rqs, &c)
+		} else {
+			// a race is a race: give it several chances
+			for i := 0; i < 20; i++ {
+				var c scenario
+				json.Unmarshal(wrap.Case, &c)
+				c.Audits, c.Waiters, c.Haves = nil, nil, nil
+				c.ID = i
+				scs = append(scs, &c)
+			}
 		}
 	}
-	var terms []string
+	var terms, rterms []string
 	ops := map[string]int{}
 	distinct := map[string]bool{}
 	naudits := 0
+	for _, c := range rqs {
+		runRq(c)
+		rterms = append(rterms, rqTerm(c))
+		for _, o := range c.Ops {
+			ops["rq/"+o.Op]++
+			distinct[fmt.Sprintf("rq/%d/%v/%v", c.ID, o.Snap, o.Closed)] = true
+		}
+		naudits += len(c.Ops)
+	}
 	for _, sc := range scs {
 		s := newSwarm(sc)
 		s.run()
-		terms = append(terms, term(sc))
+		if sc.Prop == "C10" {
+			terms = append(terms, wTerm(sc))
+		} else {
+			terms = append(terms, term(sc))
+		}
 		for _, st := range sc.Steps {
 			ops[st.Op]++
 			if st.Op == "serve" {
@@ -776,39 +898,67 @@ func main() {
 		}
 		naudits += len(sc.Audits)
 		for _, a := range sc.Audits {
-			distinct[fmt.Sprintf("%d/%v/%v/%d", sc.ID, a.InFlight, a.Avail, a.Peers)] = true
+			distinct[fmt.Sprintf("%d/%v/%v/%d/%v/%v", sc.ID, a.InFlight, a.Avail, a.Peers, a.Closed, a.Requested)] = true
+		}
+		if sc.Prop == "C10" {
+			ops["waiters"] += len(sc.Waiters)
+			ops["verified"] += len(sc.Haves)
 		}
 	}
 	jf, _ := os.Create(filepath.Join(*out, "cases.jsonl"))
+	for _, c := range rqs {
+		b, _ := json.Marshal(c)
+		jf.Write(append(b, '\n'))
+	}
 	for _, sc := range scs {
 		b, _ := json.Marshal(sc)
 		jf.Write(append(b, '\n'))
 	}
 	jf.Close()
 	nshard := 0
-	for i := 0; i < len(terms); i += 8 {
-		j := i + 8
-		if j > len(terms) {
-			j = len(terms)
+	writeShards := func(terms []string, per int, header, typ, defs string) {
+		for i := 0; i < len(terms); i += per {
+			j := i + per
+			if j > len(terms) {
+				j = len(terms)
+			}
+			var sb bytes.Buffer
+			sb.WriteString(header)
+			sb.WriteString("Definition cases : list " + typ + " := [\n" + strings.Join(terms[i:j], ";\n") + "\n].\n")
+			sb.WriteString(defs)
+			os.WriteFile(filepath.Join(*out, fmt.Sprintf("shard%03d.v", nshard)), sb.Bytes(), 0o644)
+			nshard++
 		}
-		var sb bytes.Buffer
-		sb.WriteString("From Storrent Require Import Base.Bytes Model.Sched Check.SchedCheck.\nOpen Scope N_scope.\n")
-		sb.WriteString("Definition cases : list scase := [\n" + strings.Join(terms[i:j], ";\n") + "\n].\n")
-		sb.WriteString("Definition BC := Eval vm_compute in bad_corr09 cases.\nDefinition BM := Eval vm_compute in bad_monitor09 cases.\nPrint BC. Print BM.\n")
-		os.WriteFile(filepath.Join(*out, fmt.Sprintf("shard%03d.v", nshard)), sb.Bytes(), 0o644)
-		nshard++
 	}
-	var samples []*scenario
+	if *prop == "C10" {
+		h := "From Storrent Require Import Base.Bytes Model.Requested Check.RequestedCheck.\nOpen Scope N_scope.\n"
+		writeShards(rterms, 10, h, "rqcase", "Definition BC := Eval vm_compute in bad_corr_rq cases.\nDefinition BM := Eval vm_compute in bad_monitor_rq cases.\nPrint BC. Print BM.\n")
+		writeShards(terms, 8, h, "wcase", "Definition BM := Eval vm_compute in bad_monitor_w cases.\nPrint BM.\n")
+	} else {
+		writeShards(terms, 8, "From Storrent Require Import Base.Bytes Model.Sched Check.SchedCheck.\nOpen Scope N_scope.\n", "scase",
+			"Definition BC := Eval vm_compute in bad_corr09 cases.\nDefinition BM := Eval vm_compute in bad_monitor09 cases.\nPrint BC. Print BM.\n")
+	}
+	var samples []interface{}
 	for i, sc := range scs {
 		if i%37 == 1 || len(scs) < 4 {
 			samples = append(samples, sc)
 		}
 	}
+	for i, c := range rqs {
+		if i%41 == 1 {
+			samples = append(samples, c)
+		}
+	}
+	rule := "one evaluation = one audit of Torrent.inFlight / Torrent.available against the requests held and pieces advertised by the connected peers, at a quiescent point of a scenario run on the real event handler with real peer goroutines and scripted remote peers; distinct = new (scenario, counters, number of peers)"
+	if *prop == "C10" {
+		rule = "one evaluation = one operation on a real tor.Requested (return values, entries and the closed state of every channel handed out compared with the model), or one audit at a quiescent point of a scenario on the real event handler (which waiting consumers have been woken, which pieces are verified, Torrent.requested against the priorities the consumers hold); distinct = new (case, entries, closed channels)"
+	}
 	meta := map[string]interface{}{
 		"evaluations":         naudits,
 		"distinct_nontrivial": len(distinct),
-		"rule":                "one evaluation = one audit of Torrent.inFlight / Torrent.available against the requests held and pieces advertised by the connected peers, at a quiescent point of a scenario run on the real event handler with real peer goroutines and scripted remote peers; distinct = new (scenario, counters, number of peers)",
+		"rule":                rule,
 		"scenarios":           len(scs),
+		"sequences":           len(rqs),
 		"ops":                 ops,
 		"samples":             samples,
 		"shards":              nshard,
